@@ -48,8 +48,14 @@ def urls_from_text(string):
         stop = len(url) - 1
         i = stop
 
-        while i != 0 and url[i] in IRRELEVANT_PUNCTUATION and url[i] != last_punct:
-            last_punct = url[i]
+        # NOTE: the pattern lets unicode spaces in (e.g. the thin space french
+        # typography puts before "!"), they go with the punctuation
+        while i != 0 and (
+            url[i].isspace()
+            or (url[i] in IRRELEVANT_PUNCTUATION and url[i] != last_punct)
+        ):
+            if not url[i].isspace():
+                last_punct = url[i]
             i -= 1
 
         if i != stop:
@@ -59,8 +65,8 @@ def urls_from_text(string):
         # it must go when what is left is not an url (e.g. "http://c.com.««")
         while (
             len(url) > 1
-            and url[-1] in IRRELEVANT_PUNCTUATION
-            and not URL_WITH_PROTOCOL_RE.match(url)
+            and (url[-1] in IRRELEVANT_PUNCTUATION or url[-1].isspace())
+            and (url[-1].isspace() or not URL_WITH_PROTOCOL_RE.match(url))
         ):
             url = url[:-1]
 
